@@ -40,12 +40,17 @@ func c32Interesting(r *rand.Rand, k int) uint64 {
 	}
 }
 
-func c32be(k int, n uint64) []byte {
+// c32sel is the index type used by the current case (set from the case's type token; the
+// value itself no longer selects the type, so every boundary value reaches every type)
+var c32sel uint64
+
+func c32be(k int, n0 uint64) []byte {
+	n := n0
 	switch k {
 	case 2:
 		return bigendian.Uint16ToBytes(uint16(n))
 	case 4:
-		switch n % 7 {
+		switch c32sel % 7 {
 		case 0:
 			return idx.Epoch(n).Bytes()
 		case 1:
@@ -61,7 +66,7 @@ func c32be(k int, n uint64) []byte {
 		}
 		return bigendian.Uint32ToBytes(uint32(n))
 	default:
-		if n%2 == 0 {
+		if c32sel%2 == 0 {
 			return idx.Block(n).Bytes()
 		}
 		return bigendian.Uint64ToBytes(n)
@@ -73,7 +78,7 @@ func c32unbe(k int, n uint64, b []byte) uint64 {
 	case 2:
 		return uint64(bigendian.BytesToUint16(b))
 	case 4:
-		switch n % 7 {
+		switch c32sel % 7 {
 		case 0:
 			return uint64(idx.BytesToEpoch(b))
 		case 1:
@@ -89,7 +94,7 @@ func c32unbe(k int, n uint64, b []byte) uint64 {
 		}
 		return uint64(bigendian.BytesToUint32(b))
 	default:
-		if n%2 == 0 {
+		if c32sel%2 == 0 {
 			return uint64(idx.BytesToBlock(b))
 		}
 		return bigendian.BytesToUint64(b)
@@ -153,11 +158,28 @@ func init() {
 				}
 				emit(toks...)
 			}
+			// every boundary value through every index type (type token t: 0..6 for k=4, 0..1 for k=8)
+			for _, k := range []int{4, 8} {
+				max := uint64(1)<<(8*uint(k)-1)<<1 - 1
+				bnd := []uint64{0, 1, 255, 256, 65535, 65536, 65537, 1<<24 - 1, 1 << 24, 1<<31 - 1, 1 << 31, 1<<32 - 1, 1 << 32, 1<<63 - 1, 1 << 63, max - 1, max}
+				for _, v := range bnd {
+					if v > max {
+						continue
+					}
+					for t := 0; t < 7; t++ {
+						if k == 8 && t > 1 {
+							break
+						}
+						emit("BE", strconv.Itoa(k), vu.U64(v), strconv.Itoa(t))
+						emit("CMP", strconv.Itoa(k), vu.U64(v), vu.U64((v+1)&max), strconv.Itoa(t))
+					}
+				}
+			}
 			for i := 0; i < n; i++ {
 				k := ks[r.Intn(3)]
 				switch r.Intn(6) {
 				case 0:
-					emit("BE", strconv.Itoa(k), vu.U64(c32Interesting(r, k)))
+					emit("BE", strconv.Itoa(k), vu.U64(c32Interesting(r, k)), strconv.Itoa(r.Intn(7)))
 				case 1:
 					emit("LE", strconv.Itoa(k), vu.U64(c32Interesting(r, k)))
 				case 2:
@@ -169,7 +191,7 @@ func init() {
 							b &= uint64(1)<<(8*uint(k)) - 1
 						}
 					}
-					emit("CMP", strconv.Itoa(k), vu.U64(a), vu.U64(b))
+					emit("CMP", strconv.Itoa(k), vu.U64(a), vu.U64(b), strconv.Itoa(r.Intn(7)))
 				case 3:
 					emit("ID", vu.U64(c32Interesting(r, 4)), vu.U64(c32Interesting(r, 4)), vu.Hex(c32tail(r)))
 				default:
@@ -232,6 +254,11 @@ func init() {
 			case "BE":
 				k, _ := strconv.Atoi(in[1])
 				n := pu(in[2])
+				c32sel = 6
+				if len(in) > 3 {
+					c32sel = pu(in[3])
+				}
+				vu.Stat("type" + in[1] + "_" + strconv.Itoa(int(c32sel%7)))
 				b := c32be(k, n)
 				vu.Stat("be" + in[1])
 				return []string{vu.Hex(b), vu.U64(c32unbe(k, n, b))}
@@ -253,6 +280,10 @@ func init() {
 			case "CMP":
 				k, _ := strconv.Atoi(in[1])
 				a, b := pu(in[2]), pu(in[3])
+				c32sel = 6
+				if len(in) > 4 {
+					c32sel = pu(in[4])
+				}
 				vu.Stat("cmp" + in[1])
 				return []string{cmpTok(bytes.Compare(c32be(k, a), c32be(k, b)))}
 			case "ID":
